@@ -645,9 +645,107 @@ pub fn gen_expr(ch: &mut Choices, o: &GenOpts) -> AG {
 
 /// LR(1)-but-not-necessarily-LALR(1) family:
 /// `S: p_i M_f(i,j) s_j` for a random function f; every `M_x` derives the same body.
+/// Second LR(1)-not-LALR(1) family: the contexts come from outer paths, not from prefix tokens.
+/// Wrapper rules `W_{g,k}: x_g M_k` (one prefix token per group g) are used with different
+/// suffix tokens at the top level and below `y_c T_c`, so kernel states with the same core
+/// `{W_{g,k} -> x_g . M_k}` but different lookaheads are discovered one after the other; every
+/// `M_k` has the same one or two alternatives, so such a state has one or two successors that
+/// Pager may merge first and split (together) when the state is re-processed after a later merge.
+fn gen_lr1_wrapped(ch: &mut Choices) -> AG {
+    let ng = ch.range(1, 2);
+    let nm = ch.range(2, 3);
+    let nctx = ch.range(2, 3);
+    let ns = ch.range(2, 3);
+    let mut ag = AG {
+        stratum: "lr1-wrapped".into(),
+        ..AG::default()
+    };
+    let mut tok = |ag: &mut AG, n: String| {
+        ag.tokens.push(n);
+        ag.tokens.len() - 1
+    };
+    let xs: Vec<usize> = (0..ng).map(|g| tok(&mut ag, format!("x{g}"))).collect();
+    let ss: Vec<usize> = (0..ns).map(|j| tok(&mut ag, format!("s{j}"))).collect();
+    let ys: Vec<usize> = (1..nctx).map(|c| tok(&mut ag, format!("y{c}"))).collect();
+    let nalt = ch.range(1, 2);
+    let alts: Vec<Vec<usize>> = (0..nalt)
+        .map(|a| {
+            let l = ch.range(1, 2);
+            (0..l).map(|i| tok(&mut ag, format!("c{a}{i}"))).collect()
+        })
+        .collect();
+    // rule numbering: 0 = S, 1..nctx-1 = T_c, then W_{g,k}, then M_k
+    let t_rule = |c: usize| c; // c >= 1
+    let w_rule = |g: usize, k: usize| nctx + g * nm + k;
+    let m_rule = |k: usize| nctx + ng * nm + k;
+    let mk = |syms: Vec<Sym>| AgProd {
+        syms,
+        prec: None,
+        action: None,
+    };
+    let mut ctx_prods: Vec<Vec<AgProd>> = vec![vec![]; nctx];
+    for (c, prods) in ctx_prods.iter_mut().enumerate() {
+        for g in 0..ng {
+            for j in 0..ns {
+                if ch.chance(1, 5) {
+                    continue;
+                }
+                let k = ch.pick(nm);
+                prods.push(mk(vec![Sym::R(w_rule(g, k)), Sym::T(ss[j])]));
+            }
+        }
+        if prods.is_empty() {
+            prods.push(mk(vec![Sym::R(w_rule(0, 0)), Sym::T(ss[0])]));
+        }
+        let _ = c;
+    }
+    let mut sprods = ctx_prods[0].clone();
+    for c in 1..nctx {
+        // one or two y tokens in front of the nested context
+        let mut syms = vec![Sym::T(ys[c - 1])];
+        if ch.chance(1, 2) {
+            syms.push(Sym::T(ys[c - 1]));
+        }
+        syms.push(Sym::R(t_rule(c)));
+        sprods.push(mk(syms));
+    }
+    ag.rules.push(AgRule {
+        name: "S".into(),
+        prods: sprods,
+        actiontype: None,
+    });
+    for (c, prods) in ctx_prods.iter().enumerate().skip(1) {
+        ag.rules.push(AgRule {
+            name: format!("T{c}"),
+            prods: prods.clone(),
+            actiontype: None,
+        });
+    }
+    for g in 0..ng {
+        for k in 0..nm {
+            ag.rules.push(AgRule {
+                name: format!("W{g}_{k}"),
+                prods: vec![mk(vec![Sym::T(xs[g]), Sym::R(m_rule(k))])],
+                actiontype: None,
+            });
+        }
+    }
+    for k in 0..nm {
+        ag.rules.push(AgRule {
+            name: format!("M{k}"),
+            prods: alts.iter().map(|a| mk(a.iter().map(|t| Sym::T(*t)).collect())).collect(),
+            actiontype: None,
+        });
+    }
+    ag
+}
+
 pub fn gen_lr1(ch: &mut Choices, o: &GenOpts) -> AG {
     if ch.chance(1, 8) {
         return pager_paper(ch);
+    }
+    if ch.chance(1, 3) {
+        return gen_lr1_wrapped(ch);
     }
     let np = ch.range(2, 3);
     let ns = ch.range(2, 3);
@@ -724,19 +822,42 @@ pub fn gen_lr1(ch: &mut Choices, o: &GenOpts) -> AG {
         actiontype: None,
     });
     let tail_rule = 1 + nm;
+    // sometimes every middle rule has a second alternative of its own token(s), shared by all of
+    // them: a context state then has two successors that Pager may have to split together
+    let alt: Option<Vec<usize>> = if ch.chance(1, 3) {
+        let k = ch.range(1, 2);
+        Some(
+            (0..k)
+                .map(|i| {
+                    ag.tokens.push(format!("g{i}"));
+                    ag.tokens.len() - 1
+                })
+                .collect(),
+        )
+    } else {
+        None
+    };
     for m in 0..nm {
         let mut syms: Vec<Sym> = body.iter().map(|t| Sym::T(*t)).collect();
         if nullable_tail {
             syms.push(Sym::R(tail_rule));
         }
         syms.extend(ext[m].iter().map(|t| Sym::T(*t)));
-        ag.rules.push(AgRule {
-            name: format!("M{m}"),
-            prods: vec![AgProd {
-                syms,
+        let mut prods = vec![AgProd {
+            syms,
+            prec: None,
+            action: None,
+        }];
+        if let Some(a) = &alt {
+            prods.push(AgProd {
+                syms: a.iter().map(|t| Sym::T(*t)).collect(),
                 prec: None,
                 action: None,
-            }],
+            });
+        }
+        ag.rules.push(AgRule {
+            name: format!("M{m}"),
+            prods,
             actiontype: None,
         });
     }
